@@ -725,6 +725,23 @@ class Program:
             cache[k] = _inline.inline(self, fn, depth, accept)
         return cache[k]
 
+    def flattened(self, fn, anchor_rx, depth=2):
+        """fn with (1) local helpers containing the anchor calls spliced in and (2) calls of closure literals handed to
+        such helpers resolved -- the view rules use when the statements they read may have been moved into a
+        (higher-order) helper; cached"""
+        from . import inline as _inline
+        cache = self.__dict__.setdefault("_flat", {})
+        k = (fn.key, anchor_rx, depth)
+        if k not in cache:
+            g = _inline.inline(self, fn, depth, _inline.containing(self, anchor_rx))
+            g = _inline.inline_closure_calls(self, g)
+            if g is not fn:
+                # helpers called from the spliced closure bodies
+                g2 = _inline.inline(self, g, 1, _inline.containing(self, anchor_rx))
+                g = g2
+            cache[k] = g
+        return cache[k]
+
     def awaited_inlined(self, fn, depth=1):
         """a coroutine body with the bodies of the local async fns it awaits spliced in (rules/lib/inline.py); cached"""
         from . import inline as _inline
